@@ -14,6 +14,8 @@ func init() {
 		Explain: "Gossip bounds as a gate table (operator-exact comparisons against named parameters, edge-cut dominance), the heartbeat schedule as must-pass-through, and promise accounting: B1/B2 IHAVE message and id budgets (return before any effect), B3 per-IHAVE id cap, B4 only unseen ids requested, B5 the ask is truncated to the remaining budget, the budget is charged and the promise is taken from the truncated list, B6 unwanted ids never served, B7 GossipRetransmission cap, B8/B9 IDONTWANT message cap and a running id cap across the whole RPC, B10 stored TTL, B11 per-peer IHAVE truncation to MaxIHaveLength, B12 IDONTWANT only for messages >= threshold, to mesh peers with the feature, never to the sender, B13 gossip ids only from the first HistoryGossip slots, B14 Shift always expires the last slot, shifts, and clears slot 0, B15 HistoryGossip <= HistoryLength validated, B16 the unwanted map is keyed by computeChecksum everywhere; heartbeat calls clearBackoff/clearIHaveCounters/clearIDontWantCounters/applyIwantPenalties/sendGraftPrune/flush/Shift on every path (flush before Shift) and emitGossip for every mesh and fanout topic with the pushed-to peers excluded; messages are cached before recipients are chosen; promises are fulfilled on deliver/validate/reject (except the two signature reasons), voided on throttle, counted broken only when expired, and penalised only by applyIwantPenalties; HandleRPC runs all five control handlers and replies when any part is non-empty. (B17) a dropped IWANT voids the promise recorded for it and every drop reaches the tracers. (B18) a message put into the cache twice keeps one history entry. NOT decided: window arithmetic over heartbeats as counts over histories.",
 		Assume:  []string{"heartbeat runs once per HeartbeatInterval (timer)", "MessageCache is only used from the event loop"},
 		Mutants: []Mutant{
+			{Name: "drop-reported-after-control-stripped", File: "gossipsub.go", Old: "\tgs.tracer.DropRPC(rpc, p)\n\t// push control messages that need to be retried\n\tctl := rpc.GetControl()\n\tif ctl != nil {\n\t\tgs.pushControl(p, ctl)\n\t}\n}", New: "\t// push control messages that need to be retried\n\tctl := rpc.GetControl()\n\tif ctl != nil {\n\t\tgs.pushControl(p, ctl)\n\t}\n\tgs.tracer.DropRPC(rpc, p)\n}", Expect: "B17"},
+			{Name: "cache-reput-keeps-first-age", File: "mcache.go", Old: "\tif _, ok := mc.msgs[mid]; ok {\n", New: "\tif _, ok := mc.msgs[mid]; ok {\n\t\tif len(mc.history) > 1 {\n\t\t\tmc.msgs[mid] = msg\n\t\t\treturn\n\t\t}\n", Expect: "B18"},
 			{Name: "ihave-msg-budget-ge", File: "gossipsub.go", Old: "\tif gs.peerhave[p] > gs.params.MaxIHaveMessages {", New: "\tif gs.peerhave[p] > gs.params.MaxIHaveMessages+1 {", Expect: "B1"},
 			{Name: "ihave-id-budget-gt", File: "gossipsub.go", Old: "\tif gs.iasked[p] >= gs.params.MaxIHaveLength {", New: "\tif gs.iasked[p] > gs.params.MaxIHaveLength {", Expect: "B2"},
 			{Name: "ihave-seen-not-skipped", File: "gossipsub.go", Old: "\t\t\tif gs.p.seenMessage(mid) {\n\t\t\t\tcontinue\n\t\t\t}\n\t\t\tiwant[mid] = struct{}{}", New: "\t\t\tif gs.p.seenMessage(mid) && len(iwant) > 0 {\n\t\t\t\tcontinue\n\t\t\t}\n\t\t\tiwant[mid] = struct{}{}", Expect: "B4"},
@@ -1354,8 +1356,22 @@ func checkDroppedIWantVoidsPromise(c *RuleCtx) {
 	if d := c.MustFn("B17", "(*GossipSubRouter).doDropRPC"); d != nil {
 		ok, why := p.MustCallFromEntry(d, "(*pubsubTracer).DropRPC")
 		c.Check(ok, "B17", d.Name, "every drop is reported to the tracers", d.Decl, why, "doDropRPC can return without tracer.DropRPC: "+why)
+		// the tracers must see the RPC as it was dropped: pushControl strips IHAVE/IWANT/IDONTWANT from the control
+		// message in place, so it may only run after the report
+		dg := p.Graph(d)
+		bad := ""
+		for _, pc := range p.Sites(d, false, "(*GossipSubRouter).pushControl") {
+			ppt, ok1 := dg.Locate(pc.Call)
+			for _, tr := range p.Sites(d, false, "(*pubsubTracer).DropRPC") {
+				tpt, ok2 := dg.Locate(tr.Call)
+				if ok1 && ok2 && dg.ReachableFrom(ppt.After(), tpt, nil, nil) {
+					bad = "tracer.DropRPC at " + p.Pos(tr.Call) + " can run after pushControl at " + p.Pos(pc.Call)
+				}
+			}
+		}
+		c.Check(bad == "", "B17", d.Name, "the drop is reported before the control message is stripped for the retry", d.Decl, "no path from pushControl to tracer.DropRPC", "pushControl removes the IWANT (and IHAVE, IDONTWANT) entries from the dropped RPC's control message in place; reported afterwards, the promise tracker sees no IWANT and keeps the promise: "+bad)
 	}
-	c.Min["B17"] = 2
+	c.Min["B17"] = 3
 }
 
 // B18: Shift drops a message together with the history entries of the expiring slot, so "retrievable for
@@ -1386,9 +1402,6 @@ func checkCacheSingleEntry(c *RuleCtx) {
 	// the removal: a store into mc.history other than the final append, or the loop over the slots that contains it
 	// (a range over the slots runs zero times only for an empty history, which holds no entry to remove)
 	removes := func(n ast.Node) bool {
-		if _, isRet := n.(*ast.ReturnStmt); isRet {
-			return true
-		}
 		for _, s := range p.StoresTo2(f, "MessageCache.history") {
 			if s.Node == appendStmt {
 				continue
@@ -1417,6 +1430,12 @@ func checkCacheSingleEntry(c *RuleCtx) {
 			ok = false
 		}
 	}
-	c.Check(ok, "B18", f.Name, "one history entry per cached id", appendStmt, why, "Put appends a history entry without looking whether the id is already cached: a message put twice has two entries, Shift deletes it (and its per-peer counts) when the older one expires, and it is unretrievable fewer than HistoryLength heartbeats after it was last forwarded while GetGossipIDs still advertises it")
+	// ... and the put is always entered into the newest slot: a put that only replaces the stored message leaves the
+	// entry at the age of the first put, and Shift expires the message HistoryLength heartbeats after the FIRST forward
+	if okApp, _ := g.MustPass(g.Entry(), PassOpts{}, func(n ast.Node) bool { return contains(n, appendStmt) }); !okApp {
+		ok = false
+		why = "a path through Put does not append the history entry"
+	}
+	c.Check(ok, "B18", f.Name, "one history entry per cached id", appendStmt, why, "a message that is put while it is already cached does not end up with exactly one history entry in the newest slot (a second entry next to the old one, or no new entry at all): Shift deletes it when the older entry expires, fewer than HistoryLength heartbeats after it was last forwarded: "+why)
 	c.Min["B18"] = 1
 }
